@@ -181,6 +181,64 @@ func registerU256(ex *Explorer) {
 			return mkScalar(fr.i.ctx, types.Bool, f(u256Load(args[0]), u256Load(args[1])))
 		}
 	}
+	// overflow-reporting and uint64-operand variants
+	over := func(f func(x, y *Term) *Term, ovf func(r *Term) *Term) func(fr *frame, args []value) value {
+		return func(fr *frame, args []value) value {
+			c := fr.i.ctx
+			r := f(u256Load(args[1]), u256Load(args[2]))
+			u256Store(c, args[0], Wrap(kU256, r))
+			return tuple{args[0], mkScalar(c, types.Bool, ovf(r))}
+		}
+	}
+	ex.register(m("AddOverflow"), over(Add, func(r *Term) *Term { return Ge(r, IntConst(pow2(256))) }))
+	ex.register(m("SubOverflow"), over(Sub, func(r *Term) *Term { return Lt(r, IntConst64(0)) }))
+	ex.register(m("MulOverflow"), over(Mul, func(r *Term) *Term { return Ge(r, IntConst(pow2(256))) }))
+	ex.register(m("AddUint64"), func(fr *frame, args []value) value {
+		u256Store(fr.i.ctx, args[0], Wrap(kU256, Add(u256Load(args[1]), termOf(args[2]))))
+		return args[0]
+	})
+	ex.register(m("SubUint64"), func(fr *frame, args []value) value {
+		u256Store(fr.i.ctx, args[0], Wrap(kU256, Sub(u256Load(args[1]), termOf(args[2]))))
+		return args[0]
+	})
+	ex.register(m("CmpUint64"), func(fr *frame, args []value) value {
+		x, y := u256Load(args[0]), termOf(args[1])
+		return mkScalar(fr.i.ctx, types.Int, Ite(Lt(x, y), IntConst64(-1), Ite(Gt(x, y), IntConst64(1), IntConst64(0))))
+	})
+	ex.register(m("LtUint64"), func(fr *frame, args []value) value {
+		return mkScalar(fr.i.ctx, types.Bool, Lt(u256Load(args[0]), termOf(args[1])))
+	})
+	ex.register(m("GtUint64"), func(fr *frame, args []value) value {
+		return mkScalar(fr.i.ctx, types.Bool, Gt(u256Load(args[0]), termOf(args[1])))
+	})
+	shift := func(left bool) func(fr *frame, args []value) value {
+		return func(fr *frame, args []value) value {
+			c := fr.i.ctx
+			n := termOf(args[2])
+			if !n.isConst() {
+				n = IntConst(c.concretize(n))
+			}
+			k := uint(n.c.Uint64())
+			x := u256Load(args[1])
+			var r *Term
+			switch {
+			case k >= 256:
+				r = IntConst64(0)
+			case left:
+				r = Wrap(kU256, Mul(x, IntConst(pow2(k))))
+			default:
+				r = EDiv(x, IntConst(pow2(k)))
+			}
+			u256Store(c, args[0], r)
+			return args[0]
+		}
+	}
+	ex.register(m("Lsh"), shift(true))
+	ex.register(m("Rsh"), shift(false))
+	// signed (two's complement) comparisons
+	signed := func(x *Term) *Term { return Ite(Lt(x, IntConst(pow2(255))), x, Sub(x, IntConst(pow2(256)))) }
+	ex.register(m("Sgt"), cmp(func(x, y *Term) *Term { return Gt(signed(x), signed(y)) }))
+	ex.register(m("Slt"), cmp(func(x, y *Term) *Term { return Lt(signed(x), signed(y)) }))
 	ex.register(m("Lt"), cmp(Lt))
 	ex.register(m("Gt"), cmp(Gt))
 	ex.register(m("Eq"), cmp(Eq))
